@@ -254,6 +254,59 @@ fn crc32(data: &[u8]) -> u32 {
     !crc
 }
 
+/// Re-emit a JSON value with object members in another order (0 sorted, 1 reverse sorted, 2/3 rotated by one/two) and, for
+/// odd variants, with insignificant whitespace.
+fn emit_json(v: &Value, variant: u8, depth: usize, out: &mut String) {
+    let ws = variant % 2 == 1;
+    match v {
+        Value::Object(m) => {
+            let mut keys: Vec<&String> = m.keys().collect();
+            keys.sort();
+            match variant {
+                0 => {}
+                1 => keys.reverse(),
+                k => {
+                    let r = (k as usize - 1) % keys.len().max(1);
+                    keys.rotate_left(r);
+                }
+            }
+            out.push('{');
+            for (i, k) in keys.iter().enumerate() {
+                if i > 0 {
+                    out.push(',');
+                }
+                if ws {
+                    out.push_str("\n  ");
+                }
+                out.push_str(&Value::String((*k).clone()).to_string());
+                out.push(':');
+                if ws {
+                    out.push(' ');
+                }
+                emit_json(&m[*k], variant, depth + 1, out);
+            }
+            if ws {
+                out.push('\n');
+            }
+            out.push('}');
+        }
+        Value::Array(a) => {
+            out.push('[');
+            for (i, x) in a.iter().enumerate() {
+                if i > 0 {
+                    out.push(',');
+                    if ws {
+                        out.push(' ');
+                    }
+                }
+                emit_json(x, variant, depth + 1, out);
+            }
+            out.push(']');
+        }
+        other => out.push_str(&other.to_string()),
+    }
+}
+
 /// Round trip + header faults for one composite value.
 fn composite<C: Suite, T: Wire + PartialEq + std::fmt::Debug>(v: &T, tag: &str, has_header: bool, sw: &mut Sweep) -> Option<Violation> {
     let name = T::TYPE;
@@ -274,6 +327,31 @@ fn composite<C: Suite, T: Wire + PartialEq + std::fmt::Debug>(v: &T, tag: &str, 
         match enc(fmt, &back) {
             Ok(b2) if b2 == b => {}
             _ => return Some(Violation::new("C12", "C12.round_trip_failed", format!("{name} ({fmt:?}): re-encoding the decoded value gives other bytes"))),
+        }
+        if fmt == Fmt::Json {
+            // JSON is self-describing: the same document relayed through a generic JSON value, or re-emitted with its members in
+            // another order and other whitespace, is the same encoding and must decode to the same value
+            if let Ok(doc) = serde_json::from_slice::<Value>(&b) {
+                sw.decodes += 2;
+                for (route, r) in [("from_value(parsed text)", serde_json::from_value::<T>(doc.clone())), ("from_value(to_value(x))", serde_json::to_value(v).and_then(serde_json::from_value::<T>))] {
+                    match r {
+                        Ok(x) if x == *v => {}
+                        Ok(_) => return Some(Violation::new("C12", "C12.round_trip_failed", format!("{name} (JSON) via {route}: decoded value differs from the original"))),
+                        Err(e) => return Some(Violation::new("C12", "C12.round_trip_failed", format!("{name} (JSON) via {route} does not decode: {e}"))),
+                    }
+                }
+                for variant in 0..4u8 {
+                    let mut text = String::new();
+                    emit_json(&doc, variant, 0, &mut text);
+                    sw.decodes += 1;
+                    match dec::<T>(fmt, text.as_bytes()) {
+                        Ok(x) if x == *v => {}
+                        Ok(_) => return Some(Violation::new("C12", "C12.round_trip_failed", format!("{name} (JSON) with members re-ordered (variant {variant}): decoded value differs from the original"))),
+                        Err(e) => return Some(Violation::new("C12", "C12.round_trip_failed", format!("{name} (JSON) with members re-ordered (variant {variant}: {}) does not decode: {e}", text.chars().take(160).collect::<String>()))),
+                    }
+                }
+                sw.rep.probe("json_member_orders");
+            }
         }
         if !has_header {
             continue;
